@@ -288,6 +288,19 @@ class World:
         self.other_changed = set()
         return 'F:pickle'
 
+    def readd_disowned(self, where):
+        """Every object that was new in a transaction that did not commit belongs to no database - and can be added
+        again later: it still has its state."""
+        for name, ob in list(self.obj.items()):
+            if name not in self.work and name not in self.ever and ob._p_jar is None:
+                check(ob._p_oid is None, 'disowned object keeps an oid (%s)' % where, name)
+                check(ob._p_changed is not None and 'v' in ob.__dict__,
+                      'an object that was new in an aborted / failed transaction lost its state: it cannot be added again (%s)' % where,
+                      name, ob._p_changed, sorted(ob.__dict__))
+                self.root[name] = ob
+                self.work[name] = ob.v
+                self.fresh.add(name)
+
     # -- checks -------------------------------------------------------------
     def check_view(self, where):
         """The working connection shows exactly the model's working state."""
